@@ -140,7 +140,8 @@ def check_two(case):
 def cases_long(tier, seed):
     """300 events spaced 5..10 s (> 2000 s): drift x duration exceeds the coarse bin, the second assignment pass has work to do"""
     step = 10 if tier == "quick" else 3
-    return [("long", 300, 10, ma) for ma in range(-1, 300, step)]
+    # ... and trains of 130-300 events with little drift: all pairs fall into one bin of the coarse correlation (counts above 127 / 255)
+    return [("long", 300, 10, ma) for ma in range(-1, 300, step)] + [("long", n, 10, ma) for n in (130, 200, 260) for ma in range(-1, n, step * 4)]
 
 
 def check_long(case):
@@ -148,7 +149,7 @@ def check_long(case):
     seen = {}
     ntr = 0
     for mb in list(range(-1, n, 29)) + [n - 1]:
-        for drift in (-100.0, 95.0, 100.0):
+        for drift in (-100.0, 95.0, 100.0, 0.0, 5.0):
             for offset, jit, linear in ((0.0, 1, False), (77.7, 0, True)):
                 for k, m in run_one(n, fam, set() if ma < 0 else {ma}, set() if mb < 0 else {mb}, drift, offset, jit, linear):
                     seen.setdefault(k + ":long-train", "n=%d (spacings 5-10 s) missing a=%r b=%r drift=%r offset=%r jitter=%r linear=%r: %s" % (n, ma, mb, drift, offset, jit, linear, m))
